@@ -40,13 +40,16 @@ import (
 
 const (
 	hA, hB, hM = "a.example", "b.example", "m.example"
-	hCDN       = "cdn.example"
 	hEvil      = "evil.example"
 	repo       = "proj/app"
 	// the external layer host of the sibling topology: another service on registry A's own machine
 	// name, told apart by the port only
 	hExtSibling = hA + ":9000"
+	hCDNSibling = hA + ":8443"
 )
+
+// hCDN is the redirect target of the world being run (set by newWorld)
+var hCDN = "cdn.example"
 
 // hExt is the external layer host of the world being run (set by newWorld; executions are sequential)
 var hExt = "external.example"
@@ -430,10 +433,10 @@ func newWorld(c *explore.Ctx, cfg Cfg) *world {
 	case "referrers-paged":
 		fa.ReferrersPage = 1
 	}
-	hExt = "external.example"
+	hExt, hCDN = "external.example", "cdn.example"
 	g9 := g9
 	if cfg.Sibling {
-		hExt, g9 = hExtSibling, g9s
+		hExt, hCDN, g9 = hExtSibling, hCDNSibling, g9s
 	}
 	a := w.net.AddHost(hA, fa)
 	g1.Load(a.Repo(repo), "v1")
@@ -680,7 +683,7 @@ func TestVerifC11(t *testing.T) {
 						continue
 					}
 					items = append(items, Cfg{Op: op, SchemeA: sa, RepoAuth: ra, TLS: tls})
-					if op == "copy-external" {
+					if op == "copy-external" || op == "blob-get-redirect" {
 						items = append(items, Cfg{Op: op, SchemeA: sa, RepoAuth: ra, TLS: tls, Sibling: true})
 					}
 					if op != "mirror-read" && op != "ping" {
